@@ -53,5 +53,46 @@ def Container (o : ListOpts) (d : PyVal) (items : List Atom) : Prop :=
   d = .list items ∨ d = .tuple items ∨ (d = .mapping items ∧ o.strictCoercion = false) ∨
     ∃ s, d = .atom (.str s) ∧ o.allowSingleValue = true ∧ items = [.str s]
 
+/-- `v` is a combination of members of the class -/
+def IsUnionOfMembers (c : FlagClass) (v : Nat) : Prop :=
+  ∃ S : List FlagCase, (∀ s ∈ S, s ∈ c.membersValues) ∧ v = unionOf S
+
+/-- `v` contains no member of the class (but, possibly, zero-valued ones) -/
+def ContainsNoMember (c : FlagClass) (v : Nat) : Prop :=
+  ∀ s ∈ c.membersValues, flagIn s.bits v = true → s.bits = 0
+
+theorem orAll_eq_zero_iff (l : List Nat) : orAll l = 0 ↔ ∀ x ∈ l, x = 0 := by
+  induction l with
+  | nil => simp [orAll]
+  | cons a t ih =>
+    have : orAll (a :: t) = a ||| orAll t := rfl
+    rw [this, Nat.or_eq_zero_iff, ih]
+    simp
+
+theorem cover_eq_members (c : FlagClass) (v : Nat) :
+    c.cover v = unionOf (c.membersValues.filter fun s => flagIn s.bits v) := by
+  rw [FlagClass.cover_eq]
+  unfold unionOf FlagClass.membersValues
+  simp [List.filter_map, Function.comp_def]
+
+theorem cover_eq_self_iff (c : FlagClass) (v : Nat) : c.cover v = v ↔ IsUnionOfMembers c v := by
+  constructor
+  · intro h
+    exact ⟨c.membersValues.filter fun s => flagIn s.bits v, fun s hs => (List.mem_filter.1 hs).1,
+      by rw [← cover_eq_members, h]⟩
+  · rintro ⟨S, hS, rfl⟩
+    exact FlagClass.cover_of_union hS
+
+theorem cover_eq_zero_iff (c : FlagClass) (v : Nat) : c.cover v = 0 ↔ ContainsNoMember c v := by
+  rw [cover_eq_members]
+  unfold unionOf ContainsNoMember
+  rw [orAll_eq_zero_iff]
+  constructor
+  · intro h s hs hin
+    exact h s.bits (List.mem_map.2 ⟨s, List.mem_filter.2 ⟨hs, hin⟩, rfl⟩)
+  · intro h x hx
+    obtain ⟨s, hs, rfl⟩ := List.mem_map.1 hx
+    exact h s (List.mem_filter.1 hs).1 (List.mem_filter.1 hs).2
+
 
 end Adaptix.Enum.C18
